@@ -15,10 +15,10 @@ CHECKS = {
    text="Lean theorem Goag.Router.route_refines_spec: for every well-formed (pairwise non-equivalent) template set, every base path, every request path string and every method selection, the model of the emitted router (route tree built by Route.add + route<Node> functions) returns exactly the literal-first maximal OpenAPI match (not-found iff nothing matches; the reported template is the matched item's). Proved by induction over the nested route tree (build_has: what Route.add stores; eval_sound/eval_none: what the emitted switch cascade finds). The model is tied to the code by ~2x10^5 requests per quick run over ~160 freshly generated packages.",
    design_ref="DESIGN.md §4.3", note=SERVE_NOTE,
    technique="Lean 4 refinement proof (emitted router = literal-first OpenAPI matcher) + differential correspondence of model and generated code"),
- "C04": dict(category="translation_validation",
-   text="The Lean model of new<Op>Params (parseBlock/parseValues over the merged declaration list, closed-form strconv.ParseInt/ParseBool, measured table for float/time leaves) and the reference (malformed iff required-absent / scalar-repeated / out-of-lexical-space) are executed beside the real generated parsers on every type x location x required x ref-form x level combination with lexeme-class x cardinality requests; the general iff theorem over parseBlock is stated in DESIGN.md but not yet proved, so the claim is per-program validation against an executable formal reference, not proof.",
+ "C04": dict(category="proof",
+   text="Lean theorems Goag.Serve.parseBlock_ok_iff / parseBlock_values / parseBlock_error (for every leaf-parser table, every declared parameter list and every supplied value assignment): the model of the query/header block of new<Op>Params succeeds IFF no declared parameter is malformed in the property's own words (required and absent, scalar supplied more than once, a supplied value outside the lexical space of its type); on success every field is the typed value of the supplied text and an absent optional parameter is unset; a failure names a declared parameter with a fault that really applies to it. The model (closed-form strconv.ParseInt/ParseBool, measured table for float/time leaves) is tied to the generated parsers on every run: every type x location x required x ref-form x level combination with lexeme-class x cardinality requests, Parse() result vs model vs reference.",
    design_ref="DESIGN.md §4.4", note=SERVE_NOTE,
-   technique="executable Lean model + reference oracle, differential validation per generated program (theorem pending)"),
+   technique="Lean 4 proof (iff by induction over the declaration list) + differential correspondence of the parser model with the generated Parse()"),
  "C05": dict(category="translation_validation",
    text="The Lean model pathParse(pathProgOf template) (PathBuilder alternation of constant prefixes and variable extractors incl. base-path stripping) and the reference refPathParams (typed value of the segment at the parameter's own template position; empty/ill-typed => error naming it) run beside every dispatched request's Parse(); offsets of router and parser are derived independently in the code and in the model. General theorem not yet proved: per-program validation level.",
    design_ref="DESIGN.md §4.5", note=SERVE_NOTE,
@@ -56,6 +56,43 @@ CHECKS["C19"] = dict(category="proof",
    design_ref="DESIGN.md §4.19",
    note="Trusted: Lean kernel (+propext, Classical.choice, Quot.sound); hand-written stepDir tied exhaustively on single steps; sha256 equality with a fresh-directory run as the meaning of 'what a single run produces'; the filesystem; runs that return success.",
    technique="Lean 4 proof over an exhaustively validated one-step model of Generate's file logic")
+
+JSON_NOTE = ("Trusted: Lean kernel (+propext, Classical.choice, Quot.sound, audited per run); the hand-written Lean JSON codec model (Goag.JsonM toJ / decode / dumpVal, schema reader) "
+             "is modelled, not verified: it is tied to /repo on every run by differential correspondence (goag in-process -> generated types compiled -> values built and dumped by reflection, "
+             "canonical JSON compared with the model); encoding/json, strconv, time are library hypotheses whose leaf behaviour (string escaping, float and time text) is supplied as a measured table; "
+             "schemas non-recursive; domain restrictions listed in the evidence assumptions; KF-C06-embeddedAddl is a recorded finding exercised by a fixed witness.")
+RESP_NOTE = ("Trusted: Lean kernel (+propext, Classical.choice, Quot.sound, audited per run); the hand-written Lean models Goag.Resp (emitted response types, write<Op> method sets, written facts, client status switch) "
+             "and Goag.Naming are modelled, not verified, and tied on every run by differential correspondence: go/types method sets of the real generated package, ResponseRecorder output of every constructor, "
+             "round trips through the API's LocalClient; net/http, encoding/json as library hypotheses; the reflection driver /verif/harness/rt with seeded value generation.")
+CHECKS["C02"] = dict(category="translation_validation",
+   text="Per generated program: the implementer set of every <Op>Response interface is computed by go/types over ALL named types of the generated package (complete for that program, not sampled) and must equal both the Lean model's emitted-type/method-set prediction (Goag.Resp.implementers) and the documented set read from the spec (inline, shared, aliases); every constructible response value is written and status / Content-Type / header names / body kind / exactly one WriteHeader compared with Goag.Resp.expectedWritten; specs that share a response as default and numbered, or twice in one operation, must be rejected. No general Lean theorem yet: validation per program against an executable formal model.",
+   design_ref="DESIGN.md §4.2", note=RESP_NOTE,
+   technique="executable Lean model of emitted response types + complete go/types method-set comparison per generated program")
+CHECKS["C06"] = dict(category="translation_validation",
+   text="Lean theorems encode_members_wellformed / writeItems_inv: for every item list (any number of plain and embedded members, empty ones included) the modelled member writer emits a comma-separated member sequence without leading, trailing or doubled commas that parses back to exactly the flattened members (and old_writer_* prove the pre-fix writer did not). The round trip itself (decode (encode v) = v) is checked per generated program: values built by reflection from the schema, MarshalJSON output must be valid, duplicate-free JSON, decode back to an equal value, and agree with the model toJ / dumpVal. The general round-trip theorem is not proved, so the claim is translation validation with a proved syntactic core.",
+   design_ref="DESIGN.md §4.6", note=JSON_NOTE,
+   technique="Lean 4 proof of the comma/flattening discipline of the emitted writer + executable codec model, differential round trips per generated type")
+CHECKS["C07"] = dict(category="translation_validation",
+   text="Per generated program: the canonical JSON tree of every encoded value (MarshalJSON, response bodies, client request bodies) equals the Lean model toJ and is judged by the independent executable reference Goag.JsonM.conforms written from the property text (required present, unset optional omitted, null only where nullable, declared names only unless additionalProperties, declared kinds, allOf merged, map entries under their own keys). toJ-conforms is not yet proved in general.",
+   design_ref="DESIGN.md §4.7", note=JSON_NOTE,
+   technique="executable Lean codec model + schema-conformance reference, differential validation per generated type")
+CHECKS["C08"] = dict(category="translation_validation",
+   text="Lean theorems decodeFields_ok_required_present / decodeFields_never_unnamed_type / decodeFields_missing_origin: in the model of unmarshalJSONInnerBody a successful decode implies every required key was present, a missing-key error names a declared required property that is really absent, and type errors of declared properties always carry the property name. Per generated program, schema-valid documents (generated independently of goag) and single-fault mutants are decoded by the real UnmarshalJSON and compared with the model decode and the reference prune (re-encoding equals the document up to keys the schema does not allow). Losslessness on all valid documents is validated, not proved.",
+   design_ref="DESIGN.md §4.8", note=JSON_NOTE,
+   technique="Lean 4 proofs over the modelled per-property decode loop + executable codec model, differential validation incl. single-fault mutants")
+CHECKS["C09"] = dict(category="translation_validation",
+   text="Per generated program with --client: seeded parameter structs (path, query scalar/array, header, JSON or raw body; optionals set and unset) are sent through the API's own LocalClient to the generated server in-process; the canonical dump of what the handler's Parse() returns must equal the dump of what was sent, and the recorded wire request must be accepted by the independent Lean reference for C04/C05 (typed value of the text on the wire). No general theorem (format/parse inverse laws for floats and times live in the Go library): validation per program.",
+   design_ref="DESIGN.md §4.9", note=RESP_NOTE,
+   technique="client->server round trips per generated program, compared by canonical dumps; Lean reference for the wire request")
+CHECKS["C10"] = dict(category="translation_validation",
+   text="Per generated program with --client: every constructible response value (status, seeded header values, JSON or raw body) returned by a handler is compared with the value Client.<Op> returns (same kind, code, headers, body), and 11 injected status codes per operation are compared with the Lean model Goag.Resp.clientArm (numbered arm, else default arm, else not-implemented error).",
+   design_ref="DESIGN.md §4.10", note=RESP_NOTE,
+   technique="server->client round trips per generated program + executable Lean model of the client status switch")
+CHECKS["C18"] = dict(category="translation_validation",
+   text="A relation between two generated programs: every base spec of the parameter, JSON and response corpora is generated as written ($ref to schemas, parameters, responses, alias chains, allOf/oneOf members, a trailing allOf member with additionalProperties) and with every reference replaced by an inline copy of its target; both packages are driven with identical raw requests, JSON documents (valid and single-fault) and status codes, and their wire-level projections (dispatch, accept/reject with error class, re-encoded canonical JSON, written status / content type / header names / body kind, client arm) must be equal. No Lean theorem: the property relates two outputs of the generator, which is not modelled as a whole.",
+   design_ref="DESIGN.md §4.18",
+   note="Trusted: the harness's inlining transformation as the meaning of 'inline copy'; the reflection driver; wire-level projections. Members of a discriminated oneOf stay references (their names are the discriminator values). Anonymous bodies whose helper types collide or are not identifiers are recorded findings (KF-C01-nameCollision, KF-C01-hoistedRawName) with fixed witnesses.",
+   technique="differential validation of reference form vs inlined form of the same spec (two generated packages, identical inputs)")
 
 REASONS_PENDING = "check not built yet in this round of work (see DESIGN.md §12 order); nothing is claimed for it"
 
